@@ -109,12 +109,23 @@ func main() {
 						}
 					}
 				case *ast.IfStmt:
+					// a negated condition
+					emit(off(x.Cond.Pos()), off(x.Cond.End()), "!("+string(src[off(x.Cond.Pos()):off(x.Cond.End())])+")", "negif", x.Cond.Pos())
 					if x.Init == nil && len(x.Body.List) > 0 {
 						if _, ok := x.Body.List[len(x.Body.List)-1].(*ast.ReturnStmt); ok {
 							emit(off(x.Cond.Pos()), off(x.Cond.End()), "false", "guard", x.Cond.Pos())
 						}
 					}
+				case *ast.ExprStmt:
+					// a dropped call statement (copy(...), binary.PutUint32(...), append-less helpers)
+					emit(off(x.Pos()), off(x.End()), "", "delstmt", x.Pos())
+				case *ast.IncDecStmt:
+					emit(off(x.Pos()), off(x.End()), "", "delstmt", x.Pos())
 				case *ast.AssignStmt:
+					if x.Tok == token.ASSIGN || x.Tok == token.OR_ASSIGN || x.Tok == token.XOR_ASSIGN || x.Tok == token.ADD_ASSIGN {
+						// a dropped assignment (plain `=` only: `:=` would leave the name undeclared)
+						emit(off(x.Pos()), off(x.End()), "", "delstmt", x.Pos())
+					}
 					if x.Tok == token.OR_ASSIGN {
 						s := off(x.TokPos)
 						emit(s, s+2, "&=", "op", x.TokPos)
